@@ -34,8 +34,17 @@ def part_a(ctx, info, replay_obj=None):
         scripts = vf.scripts_from_tlc(r.printed.get("SCRIPT", []), cfg={"part": "a"})
         if ctx.tier == "quick":
             # all damaged and all accepted attempts, and a seeded half of the refused undamaged ones
+            def mkey(a, g):
+                return ("m.gm." if g == "gm" else "acct.") + a
+
+            def dkey(st, g):
+                return ("d.gm." if g == "gm" else "dev.") + st
+
             def essential(s):
-                return any(x["act"] == "damage" for x in s["steps"]) or s["steps"][-1]["res"]["ok"]
+                an, rg = s["steps"][0]["a"], s["steps"][-1]["a"]
+                # right recipient key and right claimed sender (the nonce alone has to tell the groups apart)
+                same_keys = mkey(rg["o"][0], rg["g"]) == mkey(an["r"], an["g"]) and rg["c"] == dkey(an["s"], an["g"])
+                return any(x["act"] == "damage" for x in s["steps"]) or s["steps"][-1]["res"]["ok"] or same_keys
             keep = [s for s in scripts if essential(s)]
             rest = [s for s in scripts if not essential(s)]
             keep += ctx.rng.sample(rest, len(rest) // 2)
@@ -89,7 +98,7 @@ def part_b(ctx, info, replay_obj=None):
     else:
         ctx.tlc_expect_ok("Ratchet", "MC_Ratchet.cfg", name="b_mc", workers=2, consts={"MaxSent": "3", "W": "2", "N": "1"})
         nid = 100000
-        plans = [(1, 1, 3, 3), (2, 1, 3, 3)] if quick else [(1, 1, 4, 4), (2, 1, 4, 4), (3, 1, 4, 4)]
+        plans = [(2, 1, 3, 3)] if quick else [(1, 1, 4, 4), (2, 1, 4, 4), (3, 1, 4, 4)]
         for (W, N, ms, ml) in plans:
             r = ctx.tlc("GenRatchet", "Gen_Ratchet.cfg", name="b_gen_W%d" % W, workers=2 if quick else 4, timeout=1200, heap="8g",
                         consts={"W": str(W), "N": str(N), "MaxSent": str(ms), "MaxLen": str(ml), "WithPush": "FALSE"})
